@@ -21,7 +21,7 @@ import numpy as np
 from .. import coq
 from .. import tables as T
 
-DEFECTS = ["clean", "clean", "clean", "missing_one", "dup", "dup_all", "cn0_one", "cn0_all", "dup_cn0", "cn0_minor", "bad_in_dropped"]
+DEFECTS = ["clean", "clean", "clean", "missing_one", "dup", "dup_all", "dup_exact", "dup_exact_all", "cn0_one", "cn0_all", "dup_cn0", "cn0_minor", "bad_in_dropped"]
 MUT_STYLES = {
     # name -> (ids, numeric?)   "m10" < "m2" as strings; 10 > 2 as numbers
     "m": (["m1", "m2", "m10", "m11", "m20", "m3", "m100", "M1", "m"], False),
@@ -93,6 +93,11 @@ def gen_table(rng, allow_reject=False, degenerate=None, want_empty=False):
         elif d == "dup_all":
             for s in sids:
                 cells[s].append(mk(m, s))
+        elif d == "dup_exact":  # the same line twice (verbatim): still a duplicated mutation
+            cells[s0].append(dict(cells[s0][0]))
+        elif d == "dup_exact_all":  # the whole block of the mutation repeated verbatim (a file concatenated twice)
+            for s in sids:
+                cells[s].append(dict(cells[s][0]))
         elif d == "cn0_one":
             cells[s0] = [mk(m, s0, 0, 0)]
         elif d == "cn0_all":
